@@ -135,6 +135,16 @@ type refEnc struct {
 	// nilWord: the deviation C15-iface-nil-word (only used to classify that known finding): omitempty
 	// on an interface field also drops a value whose interface data word is nil
 	nilWord bool
+	// embTags: what encoding/json does with a json tag on an EMBEDDED struct (only used to classify the
+	// known finding C15-embedded-tag-ignored): a tag NAME makes it an ordinary member of that name,
+	// "-" drops it; ojg flattens it whatever the tag says
+	embTags bool
+}
+
+// embTagNamed: the embedded field carries a json tag with a name part (a name, or "-").
+func embTagNamed(f reflect.StructField) bool {
+	tag, _ := f.Tag.Lookup("json")
+	return f.Anonymous && tag != "" && strings.Split(tag, ",")[0] != ""
 }
 
 func (e *refEnc) typeName(rt reflect.Type) string {
@@ -259,7 +269,7 @@ func (e *refEnc) fields(n *lib.Node, v reflect.Value) {
 			continue
 		}
 		fv := v.Field(i)
-		if f.Anonymous && !e.o.NestEmbed {
+		if f.Anonymous && !e.o.NestEmbed && !(e.embTags && e.o.UseTags && embTagNamed(f)) {
 			// embedded: its fields become members of the enclosing object; a nil embedded pointer
 			// contributes nothing (as in encoding/json)
 			if fv.Kind() == reflect.Ptr {
